@@ -76,7 +76,7 @@ def worker_outcome(script, fn, payload, index):
     elif "err" in o:
         out["kind"] = "error"
         out["errorType"] = o["err"]
-        out["errorMessage"] = o.get("msg", "boom:" + fn)
+        out["errorMessage"] = o.get("msg", "boom:" + fn)    # "msg": None = an error reply without errorMessage
     elif o.get("garbage"):
         out["kind"] = "garbage"
     elif "raw" in o:
@@ -151,7 +151,8 @@ class Workers(object):
         if out["kind"] == "result":
             body = json.dumps(out["value"])
         elif out["kind"] == "error":
-            body = json.dumps({"errorType": out["errorType"], "errorMessage": out["errorMessage"]})
+            body = json.dumps({"errorType": out["errorType"], "errorMessage": out["errorMessage"]}
+                              if out["errorMessage"] is not None else {"errorType": out["errorType"]})
         elif out["kind"] == "raw":
             body = out["value"]
         else:
